@@ -710,6 +710,27 @@ def N14():
     return bool(back) and back[0] == 'ok' and back[1] == T1(x=3), f"internally tagged union over tuple-format variants: into_data -> {d!r}; read back -> {back and back[:2]!r}"
 
 
+def D39():
+    import pane
+    from pane.types import ValueOrList
+    from pane.converters import Converter
+    from pane.errors import ParseInterrupt, WrongTypeError
+    class Dbl(Converter):
+        def expected(self, plural=False): return 'dbl'
+        def try_convert(self, v):
+            if type(v) is not int:
+                raise ParseInterrupt()
+            return v * 2
+        def collect_errors(self, v): return None if type(v) is int else WrongTypeError('dbl', v)
+        def into_data(self, v): return v // 2
+    C = {int: Dbl()}
+    a = _outcome(lambda: pane.from_data([1, 2], ValueOrList[int], custom=C))
+    b = _outcome(lambda: pane.into_data(ValueOrList.from_list([2, 4]), ValueOrList[int], custom=C))
+    c = _outcome(lambda: pane.into_data(ValueOrList.from_val(6), ValueOrList[int], custom=C))
+    holds = a == ('ok', ValueOrList.from_list([2, 4])) and b == ('ok', [1, 2]) and c == ('ok', 3)
+    return holds, f"ValueOrList[int] with the handler {{int: double/halve}}: from_data([1,2]) -> {a!r}; into_data(list [2,4]) -> {b!r}; into_data(val 6) -> {c!r}"
+
+
 WITNESSES = {k: v for k, v in dict(globals()).items() if k[:1] in 'DNK' and k[1:].isdigit() and callable(v)}
 
 if __name__ == '__main__':
